@@ -1,4 +1,183 @@
-(* C18 - placeholder while the model is being tied; theorems follow. *)
-From RP Require Import Lib.Base Model.Mono Model.Tile Spec.Tile.
-Example c18_placeholder : text_in_range (mkText 0 0 0 0 [] false [] [] 0 0 None None false None None) = true.
-Proof. reflexivity. Qed.
+(* C18 - Tile rendering is total, deterministic, clipped and inversion-exact.
+   Only statements here; each closed by [exact] of a lemma from Proofs/Tile*.v.
+
+   [tile t W H shrink border] is the model of WriteDisplayTileNew (Model/Tile.v): it returns
+   [Ok image] or [Panic site].  The statements are for EVERY text state [t] (all integers -
+   also outside int32 -, all byte strings, every presence pattern of the optional
+   sub-messages), every size 0 <= W, H and every shrink / border value, unless a hypothesis
+   says otherwise.  The pixel view [px], the active area [active], and the boolean
+   predicates [size_ok], [clip_ok], [inversion_ok], [colours_ok], [rgb_ok], [oneline_ok],
+   [twoline_ok] are those of Spec/Clip.v and Spec/Tile.v - the same functions the check
+   evaluates on the implementation's output. *)
+From RP Require Import Lib.Base Lib.Sexp Lib.Utf8 Lib.FloatTile Gen.Tables Model.Mono Model.Tile Spec.Clip Spec.Tile
+  Proofs.OpsProofs Proofs.TileBasic Proofs.TileFloat Proofs.TileBar Proofs.TileTop.
+From Coq Require Import String.
+
+(* ---- total: no panic for any state and geometry (index colours 0..31 and beyond included) ---- *)
+Theorem c18_tile_total : forall t W H shrink border, exists i, tile t W H shrink border = Ok i.
+Proof. exact top_total. Qed.
+Print Assumptions c18_tile_total.
+
+(* the tables the renderer indexes, as regenerated from /repo: colour table non-empty with 6-bit
+   entries, seven icons, every font-table index DrawChar / GetCharWidth can form is in range *)
+Theorem c18_tables_ok : tables_ok = true.
+Proof. exact tables_ok_true. Qed.
+Print Assumptions c18_tables_ok.
+
+(* ---- size: Width, Height, buffer length ceil(W/8)*H, all bytes < 256 ---- *)
+Theorem c18_tile_size : forall t W H shrink border i,
+  0 <= W -> 0 <= H -> tile t W H shrink border = Ok i ->
+  size_ok W H (gW (ig i)) (gH (ig i)) (idata i) = true.
+Proof. exact top_size. Qed.
+Print Assumptions c18_tile_size.
+
+(* ---- depends only on its inputs: the model is a function; and the one way the call changes
+   its argument (filling absent sub-messages, [fill_text]) does not change a second rendering ---- *)
+Theorem c18_tile_deterministic : forall t W H shrink border i j,
+  tile t W H shrink border = Ok i -> tile t W H shrink border = Ok j -> i = j.
+Proof. exact top_deterministic. Qed.
+Print Assumptions c18_tile_deterministic.
+
+Theorem c18_tile_refill : forall t W H shrink border,
+  tile (fill_text t) W H shrink border = tile t W H shrink border.
+Proof. exact top_refill. Qed.
+Print Assumptions c18_tile_refill.
+
+(* ---- clipped: a non-inverted tile lights no pixel outside the active area left by shrink
+   and border; the quantifier covers the padding bits of the last byte of each row ---- *)
+Theorem c18_tile_clipped : forall t W H shrink border i,
+  0 <= W -> 0 <= H -> x_inv t = false -> tile t W H shrink border = Ok i ->
+  forall c r, 0 <= c < 8 * ((W + 7) / 8) -> 0 <= r < H ->
+    px ((W + 7) / 8) (idata i) c r = true -> active W H shrink border c r = true.
+Proof. exact top_clipped. Qed.
+Print Assumptions c18_tile_clipped.
+
+Theorem c18_tile_clip_ok : forall t W H shrink border i,
+  0 <= W -> 0 <= H -> x_inv t = false -> tile t W H shrink border = Ok i ->
+  clip_ok W H shrink border (idata i) = true.
+Proof. exact top_clip_ok. Qed.
+Print Assumptions c18_tile_clip_ok.
+
+(* ---- inversion: the same state inverted gives exactly the complement over [0,W) x [0,H)
+   (padding bits equal, same length) ---- *)
+Theorem c18_tile_inversion : forall t W H shrink border i0 i1,
+  0 <= W -> 0 <= H ->
+  tile (set_inverted t false) W H shrink border = Ok i0 ->
+  tile (set_inverted t true) W H shrink border = Ok i1 ->
+  inversion_ok W H (idata i0) (idata i1) = true.
+Proof. exact top_inversion. Qed.
+Print Assumptions c18_tile_inversion.
+
+(* ---- centring (formats 10 / 11; default proportional mode = not fixed width, no extra
+   spacing; no LF in the text; reported width <= active width, line height(s) <= active
+   height): every lit pixel of the line lies between the columns
+   border + floor((aw - sw)/2) and border + ceil((aw - sw)/2) + sw + one size step, where sw,
+   line height and size step are the metrics of the returned image's text state ---- *)
+Theorem c18_oneline_centred : forall t W H shrink border i,
+  0 <= W -> 0 <= H -> 0 <= border -> x_inv t = false -> tile t W H shrink border = Ok i ->
+  oneline_ok t W H shrink border (idata i) (str_width (it i) (x_title t)) (line_height (it i)) (tsh (it i)) = true.
+Proof. exact top_oneline. Qed.
+Print Assumptions c18_oneline_centred.
+
+Theorem c18_twoline_centred : forall t W H shrink border i,
+  0 <= W -> 0 <= H -> 0 <= border -> x_inv t = false -> tile t W H shrink border = Ok i ->
+  twoline_ok t W H shrink border (idata i) (str_width (it i) (x_l1 t)) (str_width (it i) (x_l2 t))
+             (line_height (it i)) (tsh (it i)) = true.
+Proof. exact top_twoline. Qed.
+Print Assumptions c18_twoline_centred.
+
+(* ---- strength bar: the float64 rounding is monotone, hence the bar width
+   wbar(value - rangeLow, rangeHigh - rangeLow, activeWidth) never shrinks when the value
+   grows (any active width, any integers); mirrored for a reversed range; no scale at all for
+   a degenerate range; and wbar IS the width of the filled rectangle in the tile's op list ---- *)
+Theorem c18_rnd53_monotone : forall n1 d1 n2 d2,
+  0 < d1 -> 0 < d2 -> n1 * d2 <= n2 * d1 -> fle (rnd53 n1 d1) (rnd53 n2 d2).
+Proof. exact rnd53_mono. Qed.
+Print Assumptions c18_rnd53_monotone.
+
+Theorem c18_bar_monotone : forall rl rh aw v v',
+  rl < rh -> v <= v' -> wbar (v - rl) (rh - rl) aw <= wbar (v' - rl) (rh - rl) aw.
+Proof. exact bar_monotone. Qed.
+Print Assumptions c18_bar_monotone.
+
+Theorem c18_bar_monotone_reversed : forall rl rh aw v v',
+  rh < rl -> 0 <= aw -> v <= v' -> wbar (v' - rl) (rh - rl) aw <= wbar (v - rl) (rh - rl) aw.
+Proof. exact bar_monotone_reversed. Qed.
+Print Assumptions c18_bar_monotone_reversed.
+
+Theorem c18_bar_degenerate : forall t p s,
+  sc_rh (the_scale t) = sc_rl (the_scale t) -> body_scale t p s = s.
+Proof. exact bar_degenerate. Qed.
+Print Assumptions c18_bar_degenerate.
+
+Theorem c18_bar_in_op_list : forall t p s,
+  sc_type (the_scale t) = 1 -> sc_rh (the_scale t) <> sc_rl (the_scale t) ->
+  let sc := the_scale t in
+  let wb := wbar (x_int t - sc_rl sc) (sc_rh sc - sc_rl sc) (paw p) in
+  snd (body_scale t p s) =
+  snd s ++ DRoundRect 0 (pah p - 1) (pW p) 1 0 true
+        :: (if wb >? 0 then [DFillRoundRect 0 (pah p - 3) wb 3 0 true] else []) ++ limit_marks t p.
+Proof. exact body_scale_strength. Qed.
+Print Assumptions c18_bar_in_op_list.
+
+(* ---- colours: the colour registers of the returned image are the requested ones (2-bit
+   quantised RGB / table entry / defaults, expanded to 5-6-5), for unsigned channel values and
+   any index; and the RGB export is those two colours laid over the pixels ---- *)
+Theorem c18_rgb_colours : forall t W H shrink border i,
+  color_in_range (x_pix t) = true -> color_in_range (x_bg t) = true ->
+  tile t W H shrink border = Ok i -> colours_ok t (ipixc i) (ibckg i) = true.
+Proof. exact top_colours. Qed.
+Print Assumptions c18_rgb_colours.
+
+Theorem c18_rgb_export : forall t W H shrink border i,
+  0 <= W -> 0 <= H -> tile t W H shrink border = Ok i ->
+  rgb_ok W H (idata i) (ipixc i) (ibckg i) (rgb_slice i) = true.
+Proof. exact top_rgb. Qed.
+Print Assumptions c18_rgb_export.
+
+(* ---- non-vacuity: concrete states meet the hypotheses and exercise the conclusions ---- *)
+Definition ex_style (ufs : Z) := Some (mkStyle None (Some (mkFont 0 0 0)) false 0 0 ufs).
+Definition ex10 := mkText 0 10 0 0 (str "MASTER") false [] [] 0 0 None (ex_style 1) false None None.
+Definition ex11 := mkText 0 11 0 0 [] false (str "Cam 1") (str "PGM") 0 0 None (ex_style 1) false None None.
+(* the F10 shape: label drawn at relative y = -3 with border 3 *)
+Definition ex_f10 := mkText 0 7 0 0 [] false (str "AB") (str "C") 0 1 None
+                            (Some (mkStyle None (Some (mkFont 0 2 0)) false 0 0 0)) false None None.
+Definition ex_col := mkText 5 0 0 0 [] false [] [] 0 0 None None false
+                            (Some (mkColor None (Some 25))) (Some (mkColor (Some (255, 128, 0)) None)).
+Definition lit_any (r : res img) : bool :=
+  match r with Ok i => existsb (fun b => negb (b =? 0)) (idata i) | Panic _ => false end.
+
+Example c18_ex_in_range : text_in_range ex10 = true /\ text_in_range ex_f10 = true /\ text_in_range ex_col = true.
+Proof. vm_compute. auto. Qed.
+
+(* tiles with ink, one of them with a 3-pixel border and shrink: clip and size are not vacuous *)
+Example c18_ex_lit : lit_any (tile ex10 64 32 1 2) = true /\ lit_any (tile ex_f10 64 32 0 3) = true.
+Proof. vm_compute. auto. Qed.
+
+(* the F10 input, on the repaired renderer: ink, and nothing outside the active area *)
+Example c18_ex_f10_clipped :
+  match tile ex_f10 64 32 0 3 with Ok i => clip_ok 64 32 0 3 (idata i) | Panic _ => false end = true.
+Proof. vm_compute. reflexivity. Qed.
+
+(* the centring hypotheses hold for ordinary states (so the conclusions say something) *)
+Example c18_ex_oneline_applies :
+  match tile ex10 64 32 1 2 with
+  | Ok i => oneline_applies ex10 (active_w 64 1 2) (active_h 32 1 2) (str_width (it i) (x_title ex10)) (line_height (it i))
+  | Panic _ => false end = true.
+Proof. vm_compute. reflexivity. Qed.
+
+Example c18_ex_twoline_applies :
+  match tile ex11 64 32 0 0 with
+  | Ok i => twoline_applies ex11 (active_w 64 0 0) (active_h 32 0 0) (str_width (it i) (x_l1 ex11)) (str_width (it i) (x_l2 ex11)) (line_height (it i))
+  | Panic _ => false end = true.
+Proof. vm_compute. reflexivity. Qed.
+
+(* bar widths: 25%, 50%, 1/3 of 112 (float rounding: 37), clamped below and above *)
+Example c18_ex_bar : (wbar 25 100 64, wbar 50 100 64, wbar 1 3 112, wbar (-5) 100 64, wbar 500 100 64) = (16, 32, 37, 0, 64).
+Proof. vm_compute. reflexivity. Qed.
+
+(* index colour 25 (beyond the table: default entry, white) and RGB (255,128,0) -> red 31, green 21 *)
+Example c18_ex_colours :
+  match tile ex_col 8 8 0 0 with Ok i => (ipixc i, ibckg i) | Panic _ => (0, 0) end = (65535, 703)
+  /\ color_in_range (x_pix ex_col) = true /\ color_in_range (x_bg ex_col) = true.
+Proof. vm_compute. auto. Qed.
